@@ -137,6 +137,30 @@ Theorem pb_enum_numbers_match_schema :
   same_numbers "PublicKey_" pb_algorithms (enum_of "PublicKey.Algorithm") = true.
 Proof. vm_compute. repeat split. Qed.
 
+(* the statement C07 exports about the operator code tables *)
+Definition operator_tables_stmt : Prop :=
+  (covers binary_names "datalog.Binary" cv_binary_to_pb = true /\
+   covers binary_names "pb.OpBinary_" cv_binary_from_pb = true /\
+   covers binary_names "Binary" b_binary_convert = true /\
+   covers binary_names "datalog.Binary" b_binary_from_datalog = true /\
+   covers binary_names "Binary" dl_binary_print = true) /\
+  (name_preserving binary_names "datalog.Binary" "pb.OpBinary_" cv_binary_to_pb = true /\
+   name_preserving binary_names "pb.OpBinary_" "datalog." cv_binary_from_pb = true /\
+   name_preserving binary_names "Binary" "datalog." b_binary_convert = true /\
+   name_preserving binary_names "datalog.Binary" "Binary" b_binary_from_datalog = true) /\
+  roundtrip binary_names "datalog.Binary" cv_binary_to_pb cv_binary_from_pb (fun s => s) = true /\
+  roundtrip unary_names "datalog.Unary" cv_unary_to_pb cv_unary_from_pb (fun s => s) = true /\
+  (same_numbers "OpBinary_" pb_binary_kinds (enum_of "OpBinary.Kind") = true /\
+   same_numbers "OpUnary_" pb_unary_kinds (enum_of "OpUnary.Kind") = true /\
+   same_numbers "Policy_" pb_policy_kinds (enum_of "Policy.Kind") = true /\
+   same_numbers "PublicKey_" pb_algorithms (enum_of "PublicKey.Algorithm") = true).
+Lemma operator_tables_hold : operator_tables_stmt.
+Proof.
+  split; [exact binary_tables_total|]. split; [exact binary_tables_name_preserving|].
+  split; [exact binary_wire_roundtrip|]. split; [exact unary_wire_roundtrip|].
+  exact pb_enum_numbers_match_schema.
+Qed.
+
 (* ---- schema side conditions: distinct field numbers per message, versions ---- *)
 Definition field_numbers_distinct : bool :=
   forallb (fun m => nodup_N (map (fun f => match f with (_, n, _, _, _) => n end) (snd m))) proto_schema.
